@@ -28,6 +28,7 @@ structure Cert where
   eku : List Nat                -- 0 = any, 1 = serverAuth, 2 = clientAuth, … 10/11 = MS/Netscape SGC
   unknownEku : Bool
   critical : Bool               -- UnhandledCriticalExtensions non-empty
+  version : Nat := 3            -- X.509 version (1, 2 or 3); certificates made by CreateCertificate are v3
 deriving Repr, DecidableEq
 
 structure Opts where
@@ -42,7 +43,7 @@ def certSign : Nat := 0x20
 
 /-- `CheckSignatureFrom(parent)`: the CA conditions, then the signature itself -/
 def checkSigFrom (c parent : Cert) : Bool :=
-  !((!parent.bcValid) || (parent.bcValid && !parent.isCA)) &&
+  !((parent.version == 3 && !parent.bcValid) || (parent.bcValid && !parent.isCA)) &&
   !(parent.keyUsage != 0 && parent.keyUsage &&& certSign == 0) &&
   (c.signer == parent.key && c.signer != 0)
 
